@@ -11,7 +11,7 @@ import time
 VERIF = os.path.dirname(os.path.dirname(os.path.abspath(__file__)))
 BUILD = os.path.join(VERIF, "build")
 COQ = os.path.join(VERIF, "coq")
-REPO = "/repo"
+REPO = os.environ.get("VERIF_REPO", "/repo")   # checks rebuild from /repo; a scratch tree can be named for mutation runs
 GOENV = dict(os.environ, GOFLAGS="-mod=mod", GOPROXY="off", GOSUMDB="off", GOTOOLCHAIN="local",
              CGO_ENABLED="0")
 
@@ -22,6 +22,26 @@ def sh(cmd, cwd=None, env=None, timeout=1800, check=True, stdin=None, stdout=sub
     if check and p.returncode != 0:
         raise RuntimeError("command failed (%d): %s\n%s" % (p.returncode, cmd, (p.stdout or b"").decode("utf8", "replace")[-4000:]))
     return p
+
+
+def go_build(srcdir, out, race=False):
+    """Build a harness module against REPO without editing its go.mod: a copy of go.mod/go.sum with the
+    replace directive pointing at REPO is used through -modfile."""
+    os.makedirs(os.path.join(BUILD, "gomod"), exist_ok=True)
+    name = os.path.basename(os.path.dirname(srcdir)) + "-" + os.path.basename(srcdir)
+    mod = os.path.join(BUILD, "gomod", name + ".mod")
+    txt = open(os.path.join(srcdir, "go.mod")).read()
+    import re as _re
+    txt = _re.sub(r"replace github.com/ricochet1k/termemu => \S+", "replace github.com/ricochet1k/termemu => " + REPO, txt)
+    open(mod, "w").write(txt)
+    sh(["cp", os.path.join(REPO, "go.sum"), mod[:-4] + ".sum"])
+    env = dict(GOENV)
+    cmd = ["go", "build", "-modfile=" + mod, "-tags", "verif"]
+    if race:
+        env["CGO_ENABLED"] = "1"
+        cmd.append("-race")
+    cmd += ["-o", out, "."]
+    return sh(cmd, cwd=srcdir, env=env, check=False)
 
 
 class Lock:
@@ -93,8 +113,7 @@ def build_all(log):
             open(stamp, "w").write(hv)
         # 4. harness, from /repo's working tree
         hdir = os.path.join(VERIF, "harness")
-        sh("cp /repo/go.sum go.sum", cwd=hdir)
-        p = sh(["go", "build", "-tags", "verif", "-o", os.path.join(BUILD, "harness"), "."], cwd=hdir, env=GOENV, check=False)
+        p = go_build(hdir, os.path.join(BUILD, "harness"))
         status["harness_ok"] = p.returncode == 0
         status["harness_log"] = (p.stdout or b"").decode("utf8", "replace")[-3000:]
     return status
